@@ -132,9 +132,17 @@ def handle (op : String) (args : List String) : Option Verdict :=
       | "sh384" => some (optBytes (shaPreset ShaStream.sha384P bits ts))
       | "sh512" => some (optBytes (shaPreset ShaStream.sha512P bits ts))
       | _ => none
-    -- no independent specification for a preset counter (the standard knows no such state): these lines tie the counter /
-    -- overflow branch of the model to the implementation; the spec column repeats the model
-    some { model := mdl, spec := [mdl], tags := [if mdl == "err" then "sha-counter-test-fires" else "sha-counter-preset-ok"] }
+    -- spec: FIPS 180-4 admits every message below 2^64 resp. 2^128 bits, so from a preset counter the only admissible refusal
+    -- is a true wrap of the counter; otherwise the digest (Merkle–Damgård continued with that counter value = the model with the
+    -- ideal wrap test)
+    let ideal ←
+      match alg with
+      | "sh256" => some (optBytes (shaPreset { ShaStream.sha256P with corruptAfterAdd := fun l => l < 8 } bits ts))
+      | "sh224" => some (optBytes (shaPreset { ShaStream.sha224P with corruptAfterAdd := fun l => l < 8 } bits ts))
+      | "sh384" => some (optBytes (shaPreset { ShaStream.sha384P with corruptAfterAdd := fun l => l < 8 } bits ts))
+      | "sh512" => some (optBytes (shaPreset { ShaStream.sha512P with corruptAfterAdd := fun l => l < 8 } bits ts))
+      | _ => none
+    some { model := mdl, spec := [ideal], tags := [if mdl == "err" then "sha-counter-test-fires" else "sha-counter-preset-ok"] }
   | "b2s_stream", ol :: k :: toks => do
     let ol ← ol.toNat?
     let k ← parseBytes k
